@@ -228,6 +228,9 @@ func resolveFuncValue(v ssa.Value, d int) *ssa.Function {
 							if nt2, ok := derefType(fa2.X.Type()).(*types.Named); !ok || nt2.Origin() != nt.Origin() {
 								return
 							}
+							if isNilConst(st.Val) {
+								return // reset to "nothing pending": calls through the field are nil-guarded (own rule where it matters)
+							}
 							n++
 							mc, isMC := st.Val.(*ssa.MakeClosure)
 							if !isMC {
